@@ -89,15 +89,21 @@ func compare(ref, got final) (string, string) {
 		return "registry:" + cat, d
 	}
 	if strings.Join(ref.km.Accounts, ",") != strings.Join(got.km.Accounts, ",") {
-		sig := "km-accounts"
-		seen := map[string]bool{}
+		// multiset difference: a stored key share too many (duplicate or left over) / too few
+		cnt := map[string]int{}
 		for _, a := range got.km.Accounts {
-			if seen[a] {
-				sig = "km-duplicate-account"
-			}
-			seen[a] = true
+			cnt[a]++
 		}
-		return sig, "key-manager accounts (share public keys) differ:" + diffStrings(ref.km.Accounts, got.km.Accounts)
+		for _, a := range ref.km.Accounts {
+			cnt[a]--
+		}
+		sig := "km-extra-account"
+		for _, n := range cnt {
+			if n < 0 {
+				sig = "km-missing-account"
+			}
+		}
+		return sig, "stored key shares (key-manager accounts, by share public key) differ:" + diffStrings(ref.km.Accounts, got.km.Accounts)
 	}
 	if strings.Join(ref.km.SP, ",") != strings.Join(got.km.SP, ",") {
 		return "km-slashing-protection", "slashing-protection records differ:" + diffStrings(ref.km.SP, got.km.SP)
@@ -253,7 +259,18 @@ func run(p Prog) *prog.Result {
 				continue
 			}
 			bi := pointBlock[i-1]
-			full := fmt.Sprintf("fault point #%d of %d (%s, mode %s) inside block %d: %s\nblocks:\n%s", i, T, trace[i-1], mode, bi, msg, describe(sc, blocks))
+			var win []string
+			for k := i - 4; k <= i+2; k++ {
+				if k >= 1 && k <= T {
+					mark := "  "
+					if k == i {
+						mark = "=>"
+					}
+					win = append(win, fmt.Sprintf("    %s #%d %s", mark, k, trace[k-1]))
+				}
+			}
+			full := fmt.Sprintf("fault point #%d of %d (%s, mode %s) inside block %d: %s\ncalls around the fault point:\n%s\nblocks:\n%s",
+				i, T, trace[i-1], mode, bi, msg, strings.Join(win, "\n"), describe(sc, blocks))
 			r := &prog.Result{Fail: prog.Failf("C12:"+sig, "%s", full), NonTrivial: true}
 			if prog.IsKnown("C12:" + sig) {
 				if known == nil {
